@@ -525,7 +525,10 @@ func (x *c16Exec) settle(del bool) {
 	for _, a := range x.sortedAddrs() {
 		now := x.rawRecord(a)
 		before, known := x.rawA[a]
-		if known && now != before && !x.rec.mutated(a) {
+		if known && now != before && !x.rec.mutated(a) && pre[a] == x.B.Exist(a) {
+			// (pre[a] != Exist: the reference removed or created the account in this finalisation too, e.g.
+			// go-ethereum keeps a reverted touch of the RIPEMD-160 precompile 0x03 dirty on purpose and then
+			// deletes the empty account; the adapter copies that and the differential oracle compares the result)
 			class := "untouched-account-written"
 			if x.reverts {
 				class = "revert-dirties-account"
@@ -544,6 +547,10 @@ func (x *c16Exec) settle(del bool) {
 }
 
 // existB / markGone: which accounts the reference removed (self-destruct or empty-account deletion)
+// c16Ripemd: go-ethereum keeps a reverted touch of this precompile dirty on purpose (a mainnet consensus quirk the
+// adapter copies), so an empty account there is removed although "everything was reverted".
+var c16Ripemd = ethcmn.BytesToAddress([]byte{3})
+
 func (x *c16Exec) existB() map[ethcmn.Address]bool {
 	m := map[ethcmn.Address]bool{}
 	for a := range x.addrs {
@@ -1436,7 +1443,7 @@ func (x *c16Exec) afterMessage() {
 	for _, a := range x.sortedAddrs() {
 		now := x.rawRecord(a)
 		before, known := x.rawA[a]
-		if known && now != before && !x.rec.mutated(a) {
+		if known && now != before && !x.rec.mutated(a) && a != c16Ripemd {
 			class := "untouched-account-written"
 			if x.reverts {
 				class = "revert-dirties-account"
